@@ -9,6 +9,7 @@ from ..ctx import fmt_exc
 from ..gen import edits as E
 from ..gen import files as G
 from ..load import load
+from ..refs import container
 from ..refs import layout as L
 from ..refs.layout import MComp
 
@@ -47,7 +48,7 @@ def plan(tier, seed):
 
 
 def mandatory_bins(tier):
-    return ["edit:" + e for e in EDIT_NAMES] + ["valid_accepted", "encrypted_component", "zero_components", "via_from_binary", "via_read_file", "plain_component_with_other_enc_tag_value", "edit:valid_description_of_210_bytes", "edit:valid_many_components", "edit:payload_mac_made_under_a_key_read_earlier", "mac_check_off"]
+    return ["edit:" + e for e in EDIT_NAMES] + ["valid_accepted", "encrypted_component", "zero_components", "via_from_binary", "via_read_file", "plain_component_with_other_enc_tag_value", "edit:valid_description_of_210_bytes", "edit:valid_many_components", "edit:payload_mac_made_under_a_key_read_earlier", "mac_check_off", "bec2_header_edit:valid", "bec2_header_edit:terminator_removed", "bec2_header_edit:header_cut_at_inside_header", "bec2_header_edit:block_after_terminator"]
 
 
 # rules a reader has to enforce whether or not it verifies MACs (truncations are left out: what a cut file looks like to the
@@ -179,6 +180,57 @@ def run_file(ns, ctx, case, key, first=False):
             ctx.sample({"edit": name, "binary": binary, "key": rkey})
 
 
+def bec2_header_edits(ns, ctx, rng, case, key):
+    """the BEC2 framing of the same rules: the header is a TLV list closed by 00 00 whose lengths must match the bytes present;
+    a header that is cut, whose lengths are off by one, or whose terminator is missing / altered is not well-formed.  Oracle:
+    the reader rejects, or (where the damage is not bound to anything) returns exactly the original content and key."""
+    B = ns.bec2file
+    ck = rng.randbytes(16)
+    code = rng.randbytes(8)
+    blocks = [(1, container.wrap(ck, bytes(10) + key)), (2, container.wrap(container.security_code_key(code), key + b"\x07"))]
+    if rng.random() < 0.5:
+        blocks.reverse()
+    good = L.serialise_bec2(case.comps, key, blocks)
+    hlen = len(L.BEC2_SIG) + sum(2 + len(v) for _, v in blocks) + 2
+    encs = [B.SoftwareCustKeyEncryptor(ck), B.ConfigSecurityCodeEncryptor(code)]
+    want = L.content_of(L.parse_body(good, hlen, key), key)
+
+    def variants():
+        yield "valid", good
+        for cut in sorted({len(L.BEC2_SIG), len(L.BEC2_SIG) + 1, len(L.BEC2_SIG) + 2, hlen - 3, hlen - 2, hlen - 1, hlen, hlen + 1, hlen + 3}):
+            yield "header_cut_at_%s" % ("end_of_header" if cut == hlen else "inside_header" if cut < hlen else "inside_dirsize"), good[:cut]
+        p0 = len(L.BEC2_SIG) + 1
+        yield "first_block_length_plus1", good[:p0] + bytes((good[p0] + 1,)) + good[p0 + 1 :]
+        yield "first_block_length_minus1", good[:p0] + bytes((good[p0] - 1,)) + good[p0 + 1 :]
+        yield "terminator_removed", good[: hlen - 2] + good[hlen:]
+        yield "terminator_00_01", good[: hlen - 1] + b"\x01" + good[hlen:]
+        yield "terminator_duplicated", good[:hlen] + b"\x00\x00" + good[hlen:]
+        yield "block_after_terminator", good[:hlen] + b"\x05\x01\xaa" + good[hlen:]
+
+    for name, binary in variants():
+        ctx.ev()
+        ctx.bin("bec2_header_edit:" + name)
+        ctx.distinct("bec2hdr", name, binary)
+        rp = {"case": case.to_json(), "key": key.hex(), "edit": "bec2_header:" + name, "binary": binary.hex() if len(binary) < 3000 else None, "rkey": key.hex()}
+        for cm in (True, False):
+            try:
+                res = B.Bec2File.read_file(io.StringIO(L.text_of([], binary)), encs, cm)
+            except Exception as e:
+                ctx.exc(e)
+                if name == "valid":
+                    ctx.violation("reader_rejects_well_formed_authentic_binary:bec2_valid", {"exc": fmt_exc(e), "check_cmac": cm}, rp)
+                continue
+            ctx.mon("reader_decision")
+            got = [(dict(c.description), bytes(c.blob), c.actual_len, bool(c.encrypt_by_session_key)) for c in res.bf3file.components]
+            same = len(got) == len(want) and all(g[0] == w[0] and g[2] == w[2] and g[3] == w[3] and g[1][: w[2]] == w[1][: w[2]] for g, w in zip(got, want)) and bytes(res.session_key) == key
+            if name == "valid":
+                ctx.bin("valid_accepted")
+                if not same:
+                    ctx.violation("accepted_content_differs_from_fields:bec2_valid", {"check_cmac": cm}, rp)
+            elif not same or len(binary) != len(good):
+                ctx.violation("reader_accepts_binary_breaking_rule:bec2_header:" + name, {"check_cmac": cm, "same_content": same}, rp)
+
+
 def run_shard(spec, ctx):
     ns = load()
     rng = ctx.rng
@@ -186,6 +238,8 @@ def run_shard(spec, ctx):
         case = gen_valid(rng)
         key = G.gen_key(rng)
         run_file(ns, ctx, case, key, first=(i == 0))
+        if i % 8 == 1:
+            bec2_header_edits(ns, ctx, rng, case, key)
         if i % 8 == 3:
             # well-formed files at the limits of the fields: a description of exactly 210 bytes (entry size byte 255), and
             # many components
